@@ -71,18 +71,19 @@ def showBits (f : Float) : String :=
 
 def showBool (b : Bool) : String := if b then "true" else "false"
 
-/-- float arms, named as the translator names them -/
-def floatOp (name : String) (a b : Float) : Option String :=
+/-- float arms, named as the translator names them; comparisons are the bit-level IEEE definitions
+    of Model/F64.lean, arithmetic is the platform double -/
+def floatOp (name : String) (a b : F64) : Option String :=
   match (List.lookup name Gen.floatArms).bind (·.1) with
-  | some "fadd" => some s!"(f {showBits (a + b)})"
-  | some "fsub" => some s!"(f {showBits (a - b)})"
-  | some "fmul" => some s!"(f {showBits (a * b)})"
-  | some "fdiv" => some s!"(f {showBits (a / b)})"
-  | some "powf" => some s!"(f {showBits (Float.pow a b)})"
-  | some "flt" => some (showBool (a < b))
-  | some "fle" => some (showBool (a ≤ b))
-  | some "fgt" => some (showBool (a > b))
-  | some "fge" => some (showBool (a ≥ b))
+  | some "fadd" => some s!"(f {Spec.floatBits (F64.fadd a b)})"
+  | some "fsub" => some s!"(f {Spec.floatBits (F64.fsub a b)})"
+  | some "fmul" => some s!"(f {Spec.floatBits (F64.fmul a b)})"
+  | some "fdiv" => some s!"(f {Spec.floatBits (F64.fdiv a b)})"
+  | some "powf" => some s!"(f {Spec.floatBits (F64.fpow a b)})"
+  | some "flt" => some (showBool (F64.flt a b))
+  | some "fle" => some (showBool (F64.fle a b))
+  | some "fgt" => some (showBool (F64.flt b a))
+  | some "fge" => some (showBool (F64.fle b a))
   | _ => none
 
 def prattTable : Pratt.Table := Pratt.mkTable Gen.prattLevels
@@ -180,7 +181,7 @@ def handle (line : String) : String :=
     | none => "(bad-request)"
   | ["fscalar", op, a, b] =>
     match parseHex a, parseHex b with
-    | some x, some y => (floatOp op (Float.ofBits x) (Float.ofBits y)).getD "(bad-op)"
+    | some x, some y => (floatOp op x y).getD "(bad-op)"
     | _, _ => "(bad-request)"
   | ["scalar1-spec", op, a] =>
     match a.toInt? with
